@@ -7,7 +7,7 @@ _Bool env_ge_on, env_ent_on, env_orph_on; epoch_t env_ge_cap; chain_t env_added,
 #ifdef XV_INT
 static void env_td(void) {
   if (env_ge_on) {            /* the global epoch only grows; while this thread is in a critical region at epoch e it cannot pass e+1 (env_ge_cap) */
-    unsigned nr; epoch_t ng = mk_epoch(&nr); if (ng >= global_epoch && ng <= env_ge_cap) { global_epoch = ng; ge_rem = nr; }
+    unsigned rd; epoch_t dl = mk_dist(&rd); if (global_epoch <= env_ge_cap && dl <= env_ge_cap - global_epoch) { global_epoch += dl; ge_rem = rem_add(ge_rem, rd); }
   }
   if (env_ent_on) {           /* records of other threads: anything */
     for (unsigned i = 0; i < XV_E; i++) if (&ent[i] != ltd.control_block) { ent[i].is_in_critical_region = nondet_bool(); ent[i].local_epoch = nondet_u64(); }
@@ -23,16 +23,45 @@ static void env_td(void) {
 #endif
 
 /* ---------------- state, invariants ---------------- */
-/* The harness never divides a symbolic 64-bit value: every epoch it creates is built as q * number_epochs + r and the remainder r is kept as ghost;
- * the remainders of values produced by the code are derived from those (the lowered text of course keeps its own % number_epochs). */
-/* g_rt = g_tag % NE; le_rem = own local_epoch % NE (pre-state); ge_rem = global_epoch % NE (maintained by the environment and the CAS monitor);
- * ge_acq_rem / ge_first_rem = ge_rem at the time of the first acquire load / the first load of the global epoch (declared in harness.c) */
-static epoch_t mk_epoch(unsigned* rem) { epoch_t q = nondet_u64(); unsigned r = nondet_uint(); XV_ASSUME(r < NE && q <= MAX_EPOCH / NE - 1); *rem = r; return q * NE + r; }
+/* Remainders modulo number_epochs.  The harness (and, through XV_MOD_NE, the lowered text) never divides a symbolic 64-bit value (SAT cannot
+ * cope with the modular reasoning that follows).  Instead every epoch e of a harness carries a ghost remainder rem(e); ghost remainders are
+ * arbitrary values < number_epochs constrained only by facts that the true function e % number_epochs satisfies (proved by run mod_lemma):
+ *   rem(e + j) = (rem(e) + j) % NE for small j,  rem(d) = d % NE for d < 16.   The true remainders are therefore among the assignments
+ * considered.  The lowered `x % number_epochs` looks x up among the registered anchors (value, remainder) +- small offsets; a value that is
+ * not found sets mod_unknown, which ebr.conserve reports.
+ * g_rt = rem(g_tag); le_rem = rem(own local epoch) in the pre-state; ge_rem = rem(global_epoch), maintained by environment and CAS monitor;
+ * ge_acq_rem / ge_first_rem = ge_rem at the first acquire load / first load of the global epoch (declared in harness.c) */
+unsigned g_kind;
+static epoch_t mk_dist(unsigned* rem) {      /* an arbitrary distance with its ghost remainder */
+  epoch_t d = nondet_u64(); unsigned r = nondet_uint(); XV_ASSUME(r < NE); if (d < 16) XV_ASSUME(r == (unsigned)d % (unsigned)NE); *rem = r; return d; }
 static unsigned rem_add(unsigned r, unsigned k) { return (r + k) % (unsigned)NE; }
+/* `x % number_epochs` of the lowered text */
+struct anchor { _Bool on; epoch_t val; unsigned rem; } anchors[5]; _Bool mod_unknown;
+static void set_anchor(unsigned i, epoch_t v, unsigned r) { anchors[i].on = 1; anchors[i].val = v; anchors[i].rem = r; }
+epoch_t xv_mod_ne(epoch_t x) {
+  if (ge_acq_seen) set_anchor(3, ge_acq_val, ge_acq_rem);
+  if (n_ge_load) set_anchor(4, ge_first_val, ge_first_rem);
+  for (unsigned i = 0; i < 5; i++) if (anchors[i].on) {
+    for (unsigned j = 0; j <= 3; j++) {
+      if (anchors[i].val <= MAX_EPOCH && x == anchors[i].val + j) return rem_add(anchors[i].rem, j);
+      if (anchors[i].val >= j && x == anchors[i].val - j) return rem_add(anchors[i].rem, (unsigned)NE * 2 - j);
+    }
+  }
+  mod_unknown = 1; return x % NE;
+}
+/* the facts about % that the ghost remainders rely on */
+void h_mod_lemma(void) {
+  epoch_t x = nondet_u64(); unsigned j = nondet_uint(); XV_ASSUME(j <= 3);
+  if (x <= MAX_EPOCH) XV_OBL("ebr.model.mod_lemma", (x + j) % NE == rem_add((unsigned)(x % NE), j));
+  if (x >= j) XV_OBL("ebr.model.mod_lemma", (x - j) % NE == rem_add((unsigned)(x % NE), (unsigned)NE * 2 - j));
+  if (x < 16) XV_OBL("ebr.model.mod_lemma", x % NE == (epoch_t)((unsigned)x % (unsigned)NE));
+  XV_OBL("ebr.model.mod_lemma", NE * 2 >= 3 && x % NE < NE);
+  XV_CANARY("mod_lemma.reached");
+}
 struct snap { chain_t rl[XV_MAXNE], ol[XV_MAXNE], del; struct tcb ent[XV_E]; epoch_t ge; struct td td; _Bool has_cb; struct tcb cb; } pre;
 static unsigned pos_of(struct tcb* p) { for (unsigned i = 0; i < XV_E; i++) if (p == &ent[i]) return i; return n_ent; }
 static void reset_monitors(void) {
-  xv_clock = 1; mon_src = 0; in_scan = scan_done = scan_ret = 0; n_scan = n_scan_reset = 0; trk_flag_seen = trk_ep_seen = 0; last_scan_load_clk = 0;
+  xv_clock = 1; mod_unknown = 0; for (unsigned i = 0; i < 5; i++) anchors[i].on = 0; mon_src = 0; in_scan = scan_done = scan_ret = 0; n_scan = n_scan_reset = 0; trk_flag_seen = trk_ep_seen = 0; last_scan_load_clk = 0;
   n_flag_true = n_flag_false = 0; n_sc_fence = n_acq_fence = 0; sc_fence_clk = acq_fence_clk = 0; n_ge_load = 0; ge_acq_seen = 0; n_le_store = 0; n_other_store = n_ge_store = 0;
   n_cas = 0; cas_ok = 0; adv_bad_delta = adv_no_scan = adv_trk_unchecked = adv_bad_sync = 0; expect_scan = 0;
   n_delete_calls = n_steal = n_ol_add = n_ol_adopt = n_push = 0; del_twice = stub_pre_violated = 0; deleted_in_call = 0; last_delete_clk = 0;
@@ -45,17 +74,23 @@ static void havoc_world(_Bool with_cb) {
     ent[i].next_entry = (i + 1 < n_ent) ? &ent[i + 1] : 0;
   }
   global_thread_block_list.head = &ent[0];
-  global_epoch = mk_epoch(&ge_rem);
   deleted_mask = nondet_u32();
   for (unsigned i = 0; i < XV_MAXNE; i++) {
     orphans[i].set = i < NE ? nondet_u32() : 0; ltd.retire_lists[i].set = i < NE ? nondet_u32() : 0;
   }
-  unsigned k = nondet_uint(); XV_ASSUME(k < 32); g_bit = (chain_t)1 << k; g_tag = mk_epoch(&g_rt);
+  unsigned k = nondet_uint(); XV_ASSUME(k < 32); g_bit = (chain_t)1 << k;
   ltd.critical_entries_since_update = nondet_uint(); ltd.nested_critical_entries = nondet_uint(); ltd.region_entries = nondet_uint();
   ltd.local_epoch_idx = nondet_u64();
   own = nondet_uint(); XV_ASSUME(own < n_ent);
-  ltd.control_block = with_cb ? &ent[own] : 0; acq_entry = &ent[own]; le_rem = 0;
-  if (with_cb) ent[own].local_epoch = mk_epoch(&le_rem);
+  ltd.control_block = with_cb ? &ent[own] : 0; acq_entry = &ent[own];
+  /* epochs: own local epoch le0 <= global epoch = le0 + dg; the tag of the tracked node is built relative to them (g_kind), so that every remainder is known by construction */
+  epoch_t le0 = mk_dist(&le_rem); XV_ASSUME(le0 <= MAX_EPOCH); unsigned rdg; epoch_t dg = mk_dist(&rdg); XV_ASSUME(dg <= MAX_EPOCH - le0);
+  global_epoch = le0 + dg; ge_rem = rem_add(le_rem, rdg);
+  if (with_cb) ent[own].local_epoch = le0;
+  g_kind = nondet_uint(); XV_ASSUME(g_kind <= 3 && g_kind != 2);
+  if (g_kind == 0) { unsigned kk = nondet_uint(); XV_ASSUME(kk < NE && kk <= le0); g_tag = le0 - kk; g_rt = rem_add(le_rem, (unsigned)NE - kk); }          /* le0 - k, k < number_epochs */
+  else if (g_kind == 1) { unsigned rt2; epoch_t dt = mk_dist(&rt2); XV_ASSUME(dt <= global_epoch); g_tag = global_epoch - dt; g_rt = rem_add(ge_rem, (unsigned)NE - rt2); }   /* anything <= global */
+  else { unsigned jj = nondet_uint(); XV_ASSUME(jj <= 3 && le0 + jj <= MAX_EPOCH); g_tag = le0 + jj; g_rt = rem_add(le_rem, jj); }                    /* le0 + j, j <= 3 */
 #if XV_SCAN == 1
   { unsigned it = nondet_uint(); XV_ASSUME(it < n_ent); ltd.scan_strategy.thread_iterator = &ent[it]; }
 #else
@@ -69,6 +104,7 @@ static void havoc_world(_Bool with_cb) {
 #endif
   in_scan_freq = nondet_size(); in_threshold = nondet_size(); XV_ASSUME(in_threshold >= 1);
   reset_monitors();
+  set_anchor(0, le0, le_rem); set_anchor(1, global_epoch, ge_rem);
 }
 static _Bool disjoint_all(void) {
   chain_t acc = deleted_mask;
@@ -93,6 +129,11 @@ static _Bool inv_region(void) {
   if (XV_REGION_EXT == RE_eager) return n <= r && f == (r >= 1);
   return n <= r && (n >= 1 ? f : 1) && (f ? r >= 1 : 1);
 }
+/* without loss of generality: a tag in a local list is le0 - k (k < number_epochs), a tag in an orphan slot is <= global (g_kind 1 or 3) */
+static _Bool wlog_kind(void) {
+  for (unsigned s = 0; s < XV_MAXNE; s++) { if ((ltd.retire_lists[s].set & g_bit) && g_kind != 0) return 0; if ((orphans[s].set & g_bit) && g_kind != 1 && g_kind != 3) return 0; }
+  return 1;
+}
 static _Bool inv_td_r(unsigned lrem) {   /* lrem: ghost remainder of the current own local epoch */
   struct tcb* cb = ltd.control_block;
   if (!disjoint_all() || !inv_tag_orphan()) return 0;
@@ -104,6 +145,7 @@ static _Bool inv_td_r(unsigned lrem) {   /* lrem: ghost remainder of the current
   return inv_region() && inv_tag_local(cb->local_epoch);
 }
 #define inv_td() inv_td_r(le_rem)
+#define inv_td_pre() (inv_td_r(le_rem) && wlog_kind())
 /* ---------------- contract stubs of update_local_epoch / update_global_epoch for the enter_critical runs (-DXV_STUB_UPDATE) ----------------
  * exact contracts, proved for the real text by the runs update_local_epoch_* (ebr.free.exact, ebr.free.index_consistent, ebr.scan.prefix_valid)
  * and update_global_epoch (ebr.advance.*, ebr.conserve, ebr.orphans.slot) */
@@ -136,7 +178,7 @@ static void take_snap(void) {
 static chain_t pre_all(void) { chain_t u = pre.del; for (unsigned i = 0; i < XV_MAXNE; i++) u |= pre.rl[i] | pre.ol[i]; return u; }
 /* C02: the multiset of retired nodes is conserved: (lists now) + (deleted now) = (lists before) + (deleted before), up to what the environment added/took;
  * no node in two places, none deleted twice, stub preconditions respected */
-static _Bool conserved(void) { return !del_twice && disjoint_all() && (all_nodes() | env_removed) == (pre_all() | env_added) && (all_nodes() & env_removed) == 0; }
+static _Bool conserved(void) { return !del_twice && !mod_unknown && disjoint_all() && (all_nodes() | env_removed) == (pre_all() | env_added) && (all_nodes() & env_removed) == 0; }
 static _Bool others_unchanged(void) {
   for (unsigned i = 0; i < XV_E; i++) if (&ent[i] != ltd.control_block && &ent[i] != acq_entry) {
     if (ent[i].is_in_critical_region != pre.ent[i].is_in_critical_region || ent[i].local_epoch != pre.ent[i].local_epoch || ent[i].state != pre.ent[i].state) return 0; }
@@ -166,7 +208,7 @@ void h_set_flag(void) {
 void h_enter_critical(void) {
   _Bool with_cb = nondet_bool(); havoc_world(with_cb);
   if (!with_cb) { acq_entry->is_in_critical_region = 0; acq_entry->state = ST_FREE; }   /* a record is only ever released with the flag cleared (h_dtor) */
-  XV_ASSUME(inv_td()); XV_ASSUME(ltd.nested_critical_entries < MAX_CNT && ltd.region_entries < MAX_CNT);
+  XV_ASSUME(inv_td_pre()); XV_ASSUME(ltd.nested_critical_entries < MAX_CNT && ltd.region_entries < MAX_CNT);
   take_snap(); expect_scan = 1;
   unsigned n0 = ltd.nested_critical_entries, r0 = ltd.region_entries; _Bool f0 = with_cb && pre.cb.is_in_critical_region; epoch_t le0 = with_cb ? pre.cb.local_epoch : 0;
 #ifdef XV_INT
@@ -228,7 +270,7 @@ static void check_abandon(_Bool cleared) {
   XV_OBL("ebr.conserve", conserved() && !stub_pre_violated && deleted_mask == pre.del && n_delete_calls == 0);
 }
 void h_leave_critical(void) {
-  havoc_world(1); XV_ASSUME(inv_td()); XV_ASSUME(ltd.nested_critical_entries >= 1); take_snap();
+  havoc_world(1); XV_ASSUME(inv_td_pre()); XV_ASSUME(ltd.nested_critical_entries >= 1); take_snap();
   unsigned n0 = ltd.nested_critical_entries, r0 = ltd.region_entries; struct tcb* cb = ltd.control_block;
   td_leave_critical(&ltd);
   _Bool clear = XV_REGION_EXT == RE_none ? (n0 == 1) : (r0 == 1);
@@ -246,7 +288,7 @@ void h_leave_critical(void) {
 void h_enter_region(void) {
   _Bool with_cb = nondet_bool(); havoc_world(with_cb);
   if (!with_cb) { acq_entry->is_in_critical_region = 0; acq_entry->state = ST_FREE; }
-  XV_ASSUME(inv_td()); XV_ASSUME(ltd.region_entries < MAX_CNT); take_snap();
+  XV_ASSUME(inv_td_pre()); XV_ASSUME(ltd.region_entries < MAX_CNT); take_snap();
   unsigned n0 = ltd.nested_critical_entries, r0 = ltd.region_entries; _Bool f0 = with_cb && pre.cb.is_in_critical_region;
   td_enter_region(&ltd);
   struct tcb* cb = ltd.control_block;
@@ -263,7 +305,7 @@ void h_enter_region(void) {
   if (!with_cb) XV_CANARY("enter_region.first_use"); else XV_CANARY("enter_region.has_cb");
 }
 void h_leave_region(void) {
-  havoc_world(1); XV_ASSUME(inv_td());
+  havoc_world(1); XV_ASSUME(inv_td_pre());
   /* the region_guard being destroyed holds one region entry of its own (guards hold the others) */
   if (XV_REGION_EXT != RE_none) XV_ASSUME(ltd.region_entries >= ltd.nested_critical_entries + 1);
   take_snap();
@@ -288,9 +330,8 @@ void h_leave_region(void) {
 /* ---------------- update_local_epoch ---------------- */
 epoch_t in_old_epoch, in_new_epoch, in_tag; unsigned in_slot;
 void h_update_local_epoch(void) {
-  havoc_world(1); XV_ASSUME(inv_td()); take_snap();
-  struct tcb* cb = ltd.control_block; in_old_epoch = cb->local_epoch; unsigned rn; in_new_epoch = mk_epoch(&rn); in_tag = g_tag;
-  XV_ASSUME(in_new_epoch > in_old_epoch && in_new_epoch <= global_epoch);       /* a newer global epoch was observed */
+  havoc_world(1); XV_ASSUME(inv_td_pre()); take_snap();
+  struct tcb* cb = ltd.control_block; in_old_epoch = cb->local_epoch; unsigned rd, rn; epoch_t dd = mk_dist(&rd); XV_ASSUME(dd >= 1 && dd <= global_epoch - in_old_epoch); in_new_epoch = in_old_epoch + dd; rn = rem_add(le_rem, rd); in_tag = g_tag; set_anchor(2, in_new_epoch, rn);       /* a newer global epoch was observed */
   in_slot = NE; for (unsigned s = 0; s < NE; s++) if (pre.rl[s] & g_bit) in_slot = s;
   td_update_local_epoch(&ltd, in_new_epoch);
   XV_OBL("ebr.free.three_epochs", !G_DELETED_NOW || (in_slot < NE && in_new_epoch - g_tag >= XV_GRACE));
@@ -316,7 +357,7 @@ void h_update_local_epoch(void) {
 /* ---------------- update_global_epoch (+ reclaim_orphans) ---------------- */
 epoch_t in_global, in_curr;
 void h_update_global_epoch(void) {
-  havoc_world(1); XV_ASSUME(inv_td()); struct tcb* cb = ltd.control_block;
+  havoc_world(1); XV_ASSUME(inv_td_pre()); struct tcb* cb = ltd.control_block;
   /* call site: in a critical region, local epoch e == curr_epoch was loaded from the global epoch after the flag/fence; new_epoch = e + 1 */
   XV_ASSUME(cb->is_in_critical_region && global_epoch <= cb->local_epoch + 1);
   in_curr = cb->local_epoch; in_global = global_epoch; in_tag = g_tag;
@@ -380,7 +421,7 @@ void h_scan(void) {
 
 /* ---------------- acquire_control_block on an arbitrary left-over record ---------------- */
 void h_acquire_cb(void) {
-  havoc_world(0); XV_ASSUME(inv_td()); acq_entry->is_in_critical_region = 0; acq_entry->state = ST_FREE; take_snap();
+  havoc_world(0); XV_ASSUME(inv_td_pre()); acq_entry->is_in_critical_region = 0; acq_entry->state = ST_FREE; take_snap();
 #ifdef XV_INT
   env_ge_on = 1; env_ge_cap = MAX_EPOCH;
 #endif
@@ -397,7 +438,7 @@ void h_acquire_cb(void) {
 
 /* ---------------- ~thread_data ---------------- */
 void h_dtor(void) {
-  _Bool with_cb = nondet_bool(); havoc_world(with_cb); XV_ASSUME(inv_td());
+  _Bool with_cb = nondet_bool(); havoc_world(with_cb); XV_ASSUME(inv_td_pre());
   /* thread exit: no guard_ptr / region_guard of the thread is alive */
   XV_ASSUME(ltd.nested_critical_entries == 0 && ltd.region_entries == 0);
   if (with_cb && XV_REGION_EXT == RE_lazy) XV_ASSUME(!ltd.control_block->is_in_critical_region);
@@ -419,7 +460,7 @@ void h_dtor(void) {
 
 /* ---------------- add_retired_node ---------------- */
 void h_add_retired(void) {
-  havoc_world(1); XV_ASSUME(inv_td()); struct tcb* cb = ltd.control_block;
+  havoc_world(1); XV_ASSUME(inv_td_pre()); struct tcb* cb = ltd.control_block;
   XV_ASSUME(cb->is_in_critical_region);                       /* called from guard_ptr::reclaim, i.e. inside a critical region */
   XV_ASSUME((all_nodes() & g_bit) == 0); g_tag = cb->local_epoch; g_rt = le_rem;   /* the tracked node is the one being retired now: its tag is the current local epoch */
   take_snap();
